@@ -86,6 +86,32 @@ let req_of (locs : (int, string) Hashtbl.t) (x : Sexp.t) : req option =
   | List [Atom "skip"] -> None
   | _ -> failwith "req"
 
+(* (raw METHOD path ((k v)...) (accept...) ctype clen cr range state body) *)
+let raw_of (locs : (int, string) Hashtbl.t) (x : Sexp.t) : rawreq option =
+  let s v = cl (subst locs (str v)) in
+  match x with
+  | List [Atom "raw"; m; p; List params; List acc; ct; clen; cr; rg; st; b] ->
+      Some { q_method = s m; q_path = s p;
+             q_params = List.map (function List [k; v] -> (s k, s v) | _ -> failwith "param") params;
+             q_accept = List.map s acc; q_ctype = s ct; q_clen = z_of_int (int clen); q_cr = s cr;
+             q_range = range_of rg; q_state = oz_of st; q_body = s b }
+  | _ -> None
+
+let json_target = function
+  | TStatus z -> Printf.sprintf "{\"status\":%d}" (int_of_z z)
+  | THandler (n, args) -> Printf.sprintf "{\"handler\":%s,\"args\":%s}" (json_str (lc n)) (json_list (fun a -> json_str (lc a)) args)
+
+(* grammar / routing probes: one s-expression per line *)
+let run_probe (line : string) : string =
+  match parse line with
+  | List [Atom "repo"; s] -> if repo_ok (cl (str s)) then "true" else "false"
+  | List [Atom "tag"; s] -> if is_tag (cl (str s)) then "true" else "false"
+  | List [Atom "route"; push; del; bdel; refr; m; p] ->
+      json_target (route_request gen_routes gen_default_status
+                     { sw_push = bool push; sw_delete = bool del; sw_blobdelete = bool bdel; sw_referrer = bool refr }
+                     (cl (str m)) (cl (str p)))
+  | _ -> failwith "probe"
+
 let run_case (line : string) : string =
   match parse line with
   | List [Atom "case"; id; cfg; List [Atom "views"; List views]; List [Atom "reqs"; List reqs]] ->
@@ -122,10 +148,21 @@ let run_case (line : string) : string =
                  (* several requests answered as one step (used for requests whose body delivery is
                     interleaved with other requests on the implementation) *)
                  let rs = List.map (fun y ->
+                     match raw_of locs y with
+                     | Some rq -> let (s', r) = serve cfg env !st rq in st := s'; json_resp r
+                     | None ->
                      match req_of locs y with
                      | None -> "{\"skip\":true}"
                      | Some q -> let (s', r) = step cfg env !st q in st := s'; json_resp r) xs in
                  outs := Printf.sprintf "{\"group\":[%s]}" (String.concat "," rs) :: !outs
+             | List (Atom "raw" :: _) ->
+                 (match raw_of locs x with
+                  | Some rq ->
+                      let (s', r) = serve cfg env !st rq in
+                      st := s';
+                      if r.rs_loc <> [] then Hashtbl.replace locs i (lc r.rs_loc);
+                      outs := json_resp r :: !outs
+                  | None -> failwith "raw")
              | _ ->
              match req_of locs x with
              | None -> outs := "{\"skip\":true}" :: !outs
